@@ -21,7 +21,8 @@ def check(run, prog, tier):
     run.rule("C07-c", "program_t.id_number is assigned only from get_id_number(); the cache is written only by apply_low and clear_apply_cache", 2)
 
     unit = prog.unit("src/apply.c")
-    al = run.need(unit.funcs.get("apply_low"), "apply_low")
+    import inline as _inl
+    al = _inl.inlined(run.need(unit.funcs.get("apply_low"), "apply_low"))
     fv = run.need(unit.funcs.get("function_visible"), "function_visible")
     run.saw(al)
     run.saw(fv)
@@ -87,6 +88,14 @@ def check(run, prog, tier):
             labels = [l.get("src") for l in (sg[1] if sg else []) if l]
             s = fv.blocks[bid].succ[0]
             ret0 = s is not None and any(e.get("k") == "Return" and const_val(e.get("e")) == 0 for e in fv.blocks[s].el)
+            # the same selection written as `if (origin != ORIGIN_CALL_OTHER) return 1;` in front of the test
+            by_if = False
+            for cg_, tg_, Bg_ in cfgq.guards(fv, bid):
+                op_, l_, r_ = atom_of(cg_, tg_)
+                if op_ == "==" and r_ is not None and strip(l_).get("d") == "param" and facts.any_in_macro(r_, "ORIGIN_CALL_OTHER"):
+                    by_if = True
+            if by_if:
+                labels = labels + ["ORIGIN_CALL_OTHER"]
             okv = need <= have and "ORIGIN_CALL_OTHER" in labels and ret0
             whyv = "case %s: flags & (%s) -> return 0: %s" % (labels, sorted(have & need), ret0)
     run.ob("C07-a", "visible:call_other", okv, whyv, fv.file, fv.line, "function_visible", what="call_other can reach static/private/protected functions: " + whyv)
@@ -144,6 +153,8 @@ def check(run, prog, tier):
                 cachew.add(f.name)
     okid = bool(idw) and all("get_id_number" in r for fn, r in idw)
     run.ob("C07-c", "id-writers", okid, "id_number writers: %s" % idw, None, None, None, what="program ids not from get_id_number(): %s" % idw)
+    import helpers
+    cachew = helpers.fold(prog, cachew, {"apply_low", "clear_apply_cache"})
     run.ob("C07-c", "cache-writers", cachew <= {"apply_low", "clear_apply_cache"}, "cache written by %s" % sorted(cachew), al.file, None, None, what="apply cache written by %s" % sorted(cachew))
 
     # ---- C07-d  the origin is handed over through a global that apply_low consumes and clears
